@@ -31,7 +31,7 @@ REAL_COMPONENTS = ["Pipeline / LocalSemantivaOrchestrator / SequentialSemantivaE
                    "node factory and all class-generating factories", "component metaclass registry", "cli.main run-space loop",
                    "QueueSemantivaOrchestrator + worker_loop + InMemorySemantivaTransport (mode 4)"]
 STUB_COMPONENTS = ["leaf processors (with a counting tick, nothing recorded per run)", "thread scheduler (mode 4 only)", "SimClock/SimUUID"]
-ASSUMPTIONS = ["gc object increments are exactly reproducible inside a forked child (a no-op control history calibrates the harness's own "
+ASSUMPTIONS = ["gc object increments are reproducible to within a few objects per 100 runs inside a forked child (a no-op control history calibrates the harness's own "
                "footprint to 0)", "proportional growth is what is forbidden; a constant offset is allowed"]
 REQUIRED_PROBES = ["mode.reuse", "mode.fresh", "mode.launch", "mode.queue", "pipeline_with_sweep", "pipeline_with_shorthand"]
 CONFIG = {
@@ -377,7 +377,7 @@ def execute(sc: dict, seed: int) -> dict:
         sample = {"nodes": sc["base"]["nodes"], "context": sc["base"]["context"], "modes": sc["modes"], "n": sc["n"],
                   "slopes": {k: round(v, 3) for k, v in stats.items() if k.startswith("slope_")}}
         return {"violations": uniq, "stats": {k: v for k, v in stats.items() if not k.startswith("slope_")}, "digests": [bd],
-                "nontrivial": nontrivial, "sample": sample, "digest": _digest([sample["slopes"], [v["key"] for v in uniq]])}
+                "nontrivial": nontrivial, "sample": sample, "digest": _digest([sc["modes"], sorted(v["key"] for v in uniq)])}  # C18 measures object counts, not an event log
     finally:
         w.close()
 
